@@ -277,6 +277,35 @@ def writable(P, sdef, v):
         return False
 
 
+def spoil_union(p, t, v):
+    """v with the first union inside it (depth first: struct fields, list elements) replaced by the value New<T>() builds -
+    no member set, which the generated Write refuses; None if v holds no union"""
+    if v is None:
+        return None
+    r = L.resolve(p, t)
+    if r[0] == "ref":
+        k, d = L.lookup(p, r[1], r[2])
+        if k == "enum":
+            return None
+        if d["kind"] == "union":
+            return L.new_value(p, d)
+        for f in d["fields"]:
+            sp = spoil_union(p, f["type"], v.get(f["id"]))
+            if sp is not None:
+                w = dict(v)
+                w[f["id"]] = sp
+                return w
+        return None
+    if r[0] == "list":
+        for i, x in enumerate(v):
+            sp = spoil_union(p, r[1], x)
+            if sp is not None:
+                w = list(v)
+                w[i] = sp
+                return w
+    return None
+
+
 def plan_session(rng, P, cfn, csvc, sfn, ssvc, transport, proto, per_method, tamper=False):
     p = P.p
     calls, reqs = [], []
@@ -297,7 +326,17 @@ def plan_session(rng, P, cfn, csvc, sfn, ssvc, transport, proto, per_method, tam
                 continue
             if spec is None:
                 continue
+            # fault: the handler returns a value the generated Write refuses part-way (a union with no member set somewhere
+            # inside): the reply is abandoned after its beginning has been written; the caller must be told, with a
+            # well-formed error, and the calls that follow must be served as ever
+            badret = False
+            if desc[0] == "ret" and desc[1] is not None and m["ret"] is not None and not m["oneway"] and not tamper:
+                sp = spoil_union(p, m["ret"], desc[1])
+                if sp is not None and rng.random() < 0.3 and not writable(P, ret_sdef(m), {0: sp}):
+                    badret = True
+                    spec, desc = {"kind": "ret", "value": L.to_wire(p, m["ret"], sp)}, ("ret", sp)
             c = Call()
+            c.badret = badret
             c.m, c.dfn, c.dsvc = m, dfn, dsvc
             c.own = (dfn, dsvc) == (cfn, csvc)
             for _ in range(30):
@@ -326,7 +365,7 @@ def plan_session(rng, P, cfn, csvc, sfn, ssvc, transport, proto, per_method, tam
                     c.tamper = {"type": rng.choice([1, 4, 0, 5, 77] + ([7, 6, 12, 13] if proto == "compact" else []))}
                 req["tamper"] = c.tamper
             c.drop = False
-            if transport == "http" and not tamper and not c.unwritable and rng.random() < 0.08:
+            if transport == "http" and not tamper and not c.unwritable and not c.badret and rng.random() < 0.08:
                 # fault: the server processes the request and the connection is closed before any response leaves
                 c.drop = True
                 req["drop_reply"] = True
@@ -341,7 +380,8 @@ def plan_session(rng, P, cfn, csvc, sfn, ssvc, transport, proto, per_method, tam
     # the same calls once more, all in flight at once through the one client (several goroutines sharing it)
     served = {wire_name(m) for _, _, m in L.service_methods(p, sfn, ssvc)}
     elig = [i for i, c in enumerate(calls) if not c.m["oneway"] and not c.unwritable and c.tamper is None
-            and c.desc[0] in ("ret", "exc") and wire_name(c.m) in served and not getattr(c, "drop", False)]
+            and c.desc[0] in ("ret", "exc") and wire_name(c.m) in served and not getattr(c, "drop", False)
+            and not getattr(c, "badret", False)]
     if proto == "json":
         # Apache Thrift's JSON reader splits NaN / Infinity tokens at a 4096-byte boundary (known finding, third party):
         # alone such a call fails with a recognisable PROTOCOL_ERROR; in a burst the undecodable request makes the
@@ -708,6 +748,20 @@ def _run_program(ctx, prog, lb, plan, stats, judge_cases, judge_meta, burst_case
                 if got[0] in ("ret", "exc"):
                     problems.append("the reply was lost with the connection, yet the caller got %s" % (str(got)[:200],))
                 stats["kind/reply-dropped"] += 1
+                if problems:
+                    ctx.violation("C03: %s over %s/%s: %s" % (m["name"], transport, proto, "; ".join(problems)), rep)
+                else:
+                    stats["oracle_ok"] += 1
+                continue
+            if getattr(c, "badret", False) and has and not c.unwritable:
+                # the handler ran ONCE (checked above) and returned what cannot be written: one reply frame, a well-formed
+                # INTERNAL_ERROR exception (every transport of the lab can drop what it has buffered)
+                if got[0] != "appexc" or got[1] != 6:
+                    problems.append("the handler's result cannot be written (a union with no member set): the caller got %s, "
+                                    "expected an INTERNAL_ERROR application exception" % (str(got)[:300],))
+                if len(o.get("replies") or []) != 1:
+                    problems.append("a two-way call whose result cannot be written produced %d reply frames" % len(o.get("replies") or []))
+                stats["kind/unwritable-result"] += 1
                 if problems:
                     ctx.violation("C03: %s over %s/%s: %s" % (m["name"], transport, proto, "; ".join(problems)), rep)
                 else:
